@@ -463,6 +463,13 @@ def get_model_parser(top_rule, comments_model, **kwargs):
                     encoding=encoding,
                 )
 
+                if not hasattr(model, "_tx_reference_resolver"):
+                    # The model is not under construction (any more). If it
+                    # is a plain value (e.g. the root rule matched a base
+                    # type) its construction never ends in
+                    # _end_model_construction: restore the user classes here.
+                    self._restore_user_attr_methods()
+
             except:  # noqa
                 # Restore of user classes replaced attr methods
                 self._restore_user_attr_methods()
